@@ -10,6 +10,16 @@ from typing import Any, Dict, List, Tuple
 
 
 def run_one(script: Dict[str, Any], worker: str, seed: int = 0) -> List[Dict[str, Any]]:
+    if "variants" in script:
+        # the same session executed with several segmentations; one trace, `variant` separators
+        out: List[Dict[str, Any]] = []
+        for i, steps in enumerate(script["variants"]):
+            sub = {k: v for k, v in script.items() if k != "variants"}
+            sub["steps"] = steps
+            if i:
+                out.append({"e": "variant", "n": i})
+            out.extend(run_one(sub, worker, seed))
+        return out
     from .session import Session
 
     sess = Session(json.loads(json.dumps(script)), worker)
